@@ -76,6 +76,15 @@ func (g *Gen) builtin(b *ssa.Builtin, c *ssa.CallCommon, args []string, h *Heap,
 		mt := c.Args[0].Type().Underlying().(*types.Map)
 		return m.mapDelete(h, mt, args[0], args[1]), nil
 	case "close":
+		// `after close assert ...`: facts that must hold when a channel is closed (evaluated just before the close)
+		for _, a := range g.contract.After["close"] {
+			tm, err := g.envAt(h, g.blockCur).EvalBool(a.E)
+			if err != nil {
+				g.errorf("%s: after close assert %s: %v", a.Line, a.Name, err)
+				continue
+			}
+			g.vc.Assert(fmt.Sprintf("%s#lemma:%s@%d", funcKey(g.fn), a.Name, g.ordinal("lemma:close:"+a.Name)), "lemma", guard, tm, g.pos(pos), a.Text)
+		}
 		// closing a channel: latch facts are attached through the `onClose` define, if present
 		if _, ok := g.specs.Ghosts["closed"]; ok {
 			srt := ArrSort(SInt, SBool)
@@ -294,6 +303,19 @@ func (w *World) instrWrites(in ssa.Instruction, ws *WriteSet, g *Gen) {
 		// the spawned goroutine's writes are interference, not part of the sequential frame
 		if _, ok := w.specs.Ghosts["spawned"]; ok {
 			ws.add("G.spawned", ArrSort(SInt, SInt))
+		}
+		if sc := x.Call.StaticCallee(); sc != nil {
+			if ct := w.specs.Contracts[funcKey(sc)]; ct != nil {
+				for _, sd := range ct.SpawnSets {
+					names, all := w.designatorVars(sd.Target, sc, ct)
+					if all {
+						ws.All, ws.Why = true, "spawnsets "+sd.Target
+					}
+					for n, s := range names {
+						ws.add(n, s)
+					}
+				}
+			}
 		}
 	case *ssa.Send, *ssa.Select:
 		w.interferenceWrites(ws, g)
